@@ -1,4 +1,5 @@
 import Rp2.Proofs.ReportLinks
+import Rp2.Proofs.RunSums
 import Rp2.Proofs.ReportTotal
 import Rp2.Proofs.Numbering
 import Rp2.Proofs.ReportProps
@@ -13,6 +14,13 @@ theorem fractions_count (fs : List Fraction) : (numberFractions fs).length = fs.
 theorem event_labels (fs : List Fraction) (i : Nat) (n : Numbered) (h : (numberFractions fs)[i]? = some n) :
     n.evK = ((fs.take i).filter (fun g => g.ev.row == n.f.ev.row)).length ∧
     n.evN = (fs.filter (fun g => g.ev.row == n.f.ev.row)).length ∧ n.evK < n.evN := label_event fs i n h
+/-- the acquired-lot label `k/n`: k−1 = number of earlier fractions from the same lot in the list that is numbered (the history cut at
+    the to-date), n = their total number in that list; income fractions carry no lot label -/
+theorem lot_labels (fs : List Fraction) (i : Nat) (n : Numbered) (h : (numberFractions fs)[i]? = some n) :
+    (n.f.lot = none → n.lotK = none ∧ n.lotN = none) ∧
+    (∀ l, n.f.lot = some l →
+      n.lotK = some ((fs.take i).filter (sameLotAs n.f)).length ∧ n.lotN = some (fs.filter (sameLotAs n.f)).length ∧
+      ((fs.take i).filter (sameLotAs n.f)).length < (fs.filter (sameLotAs n.f)).length) := label_lot fs i n h
 /-- rows written from a start row are consecutive and each entry is written once -/
 theorem rows_once (start : Nat) (l : List Int) : (numberFrom start l).map (·.1) = l := numberFrom_keys start l
 /-- **on the full-report model**: the In-Out sheet lists the window's in-, out- and intra-transactions, each exactly once, in the
@@ -22,4 +30,17 @@ theorem model_transactions_once (c : Computed) :
 /-- the repaired generator always produces the report (no internal error whatever the computed data) -/
 theorem model_report_always_generated (holderOf : Nat → String) (period : Int) (cs : List Computed) :
     ∃ rows, genFull true true holderOf period cs = .ok rows := genFull_total holderOf period cs
+/-- **running-sum columns on the `compute` model**: the sums attached to a transaction run over the whole time-sorted history up to and
+    including it (decimal addition, left to right) — a from/to window hides rows but never restarts a sum -/
+theorem model_running_sums_over_whole_history (asset : String) (acctName : Nat → String) (period : Int) (allowNeg : Bool) (fromD toD : Option Int)
+    (sched : List (Int × Method)) (ins : List InTx) (outs : List OutTx) (intras : List IntraTx) (cd : Computed)
+    (h : compute asset acctName period allowNeg fromD toD sched ins outs intras = .ok cd) :
+    cd.inRun = ((sortByTs (·.ts.us) ins).map (·.row)).zip
+      ((List.range (sortByTs (·.ts.us) ins).length).map fun k => ((sortByTs (·.ts.us) ins).take (k + 1)).foldl (fun s t => dadd s (ofUnits t.amount)) 0) ∧
+    cd.outRun = ((sortByTs (·.ts.us) outs).map (·.row)).zip
+      (((List.range (sortByTs (·.ts.us) outs).length).map fun k => ((sortByTs (·.ts.us) outs).take (k + 1)).foldl (fun s t => dadd s (ofUnits t.outNoFee)) 0).zip
+       ((List.range (sortByTs (·.ts.us) outs).length).map fun k => ((sortByTs (·.ts.us) outs).take (k + 1)).foldl (fun s t => dadd s (ofUnits t.fee)) 0)) ∧
+    cd.intraRun = ((sortByTs (·.ts.us) intras).map (·.row)).zip
+      ((List.range (sortByTs (·.ts.us) intras).length).map fun k => ((sortByTs (·.ts.us) intras).take (k + 1)).foldl (fun s t => dadd s (ofUnits (t.sent - t.recv))) 0) :=
+  compute_running_sums asset acctName period allowNeg fromD toD sched ins outs intras cd h
 end Rp2.C13
